@@ -51,6 +51,10 @@ func stuffBits(bits *utils.BitList, wordSize int) *utils.BitList {
 			out.AddBits(word, byte(wordSize))
 		}
 	}
+	if out.Len() == 0 {
+		// no data at all: emit one word of padding so that the message is not empty
+		out.AddBits(mask, byte(wordSize))
+	}
 	return out
 }
 
